@@ -83,13 +83,15 @@ def shards(tier, seed):
         for n in range(0, 5):
             tabs = initial_tables(n)
             depth = (3 if n <= 2 else 2) if tier == "quick" else (4 if n <= 2 else 3)
-            chunk = 1 if n < 3 else (4 if tier == "quick" else 12)
+            chunk = 1 if n < 2 else ((4 if n == 2 else 6 if n == 3 else 8) if tier == "quick" else 12)
             if n == 2 and tier == "thorough":
-                chunk = 4
+                chunk = 6
             for c in range(chunk):
                 out.append({"version": V, "n": n, "depth": depth, "chunk": c, "chunks": chunk, "seed": seed,
                             "ntabs": len(tabs), "sample": 3 if (tier == "quick" and n == 4) else 0})
     out.sort(key=lambda d: -d["n"])
+    for d in out:
+        d["debuglog"] = d["n"] <= 2  # DEBUG logging on the small tables (the big ones are the critical path)
     return out
 
 
